@@ -54,12 +54,17 @@ def gen_template_text(rng, repeated_exact):
         a = "(" + ", ".join(args) + ")" if args else ""
         ms = str(modes[0]) if k == 1 else "[" + ", ".join(map(str, modes)) + "]"
         lines.append("%s%s | %s" % (rng.choice(GATES), a, ms))
+    decl = ""
+    if rng.random() < 0.3:
+        # an operation with a constant array argument takes part in the matching like any other
+        decl = "float array U =\n    0.5, 1.5\n    2.5, 3.5\n"
+        lines.insert(rng.randrange(len(lines) + 1), "Interferometer(U) | [%d, %d]" % tuple(rng.sample(range(5), 2)))
     for p in pars:
         if p not in used:
             lines.append("Rgate({%s}) | %d" % (p, rng.randrange(5)))
             used[p] = "{%s}" % p
     tgt = rng.choice(["", "target fock\n", "target gaussian (shots=5)\n"])
-    return "name t\nversion 1.0\n" + tgt + "\n" + "\n".join(lines) + "\n", pars
+    return "name t\nversion 1.0\n" + tgt + "\n" + decl + "\n".join(lines) + "\n", pars
 
 
 def values_for(rng, pars, exact):
@@ -152,6 +157,9 @@ def structural_edits(prog, rng):
     q._version = "9.9"
     out.append(("a different version", q))
     q = copy.deepcopy(prog)
+    q._version = str(prog._version) + "0"          # 1.0 vs 1.00: another version text, the same number
+    out.append(("a version spelled differently (%s)" % q._version, q))
+    q = copy.deepcopy(prog)
     q._target = {"name": "other_device", "options": {}}
     out.append(("a different target", q))
     return out
@@ -215,7 +223,7 @@ def run(ctx):
                 "exact-friendly dyadic values, (generic) each parameter in one form with generic doubles; the "
                 "instance is reordered by a random topological order of its dependency graph; oracle: "
                 "match_template succeeds, its values re-instantiate to the same arguments (1e-9) and equal the "
-                "values used, and six single structural edits (gate, mode list, permuted mode list of a multi-mode gate, per-mode order, version, target) "
+                "values used, and seven single structural edits (gate, mode list, permuted mode list of a multi-mode gate, per-mode order, version, the same version number spelled differently, target); a third of the templates carry an operation with a constant array argument "
                 "raise TemplateError; model matchTemplate vs implementation; non-trivial = at least 3 operations "
                 "and 2 parameter occurrences; distinct by (template, values, seed)")
     n = ctx.n(300, 5000)
